@@ -22,6 +22,14 @@ def atomOf (lhsIsVar : Bool) (lhs op rhs : String) : Option Atom :=
   (MOp.ofString? op).bind fun o =>
     if lhsIsVar then mkAtom lhs o rhs false else mkAtom rhs o.reflect lhs true
 
+/-- one step of `_evaluate_markers`' loop over the list: `groups` (head = `groups[-1]`) -/
+def refStep (f : PItem → Bool) (gs : List Bool) (it : PItem) : List Bool :=
+  match it, gs with
+  | .or_, gs => true :: gs
+  | .and_, gs => gs
+  | it, g :: gs => (g && f it) :: gs
+  | _, [] => []
+
 /-- reference: `_evaluate_markers` with the atoms evaluated as the model's atoms evaluate
     (an atom that raises counts as false, as in `sem`) -/
 def refSem (env : Env) : Nat → PItem → Bool
@@ -29,13 +37,7 @@ def refSem (env : Env) : Nat → PItem → Bool
   | fuel + 1, item =>
     match item with
     | .atom v l o r => match atomOf v l o r with | some a => sem env (.expr a) | none => false
-    | .group items =>
-      (items.foldl (fun (gs : List Bool) it =>
-          match it, gs with
-          | .or_, gs => true :: gs
-          | .and_, gs => gs
-          | it, g :: gs => (g && refSem env fuel it) :: gs
-          | _, [] => []) [true]).any id
+    | .group items => (items.foldl (refStep (refSem env fuel)) [true]).any id
     | _ => false
 
 /-- every atom in the parsed list is of the well-defined classes -/
@@ -107,12 +109,7 @@ theorem build_sound : ∀ (fuel : Nat) (p : PItem) (m : M), PGood env fuel p →
               | .and_, gs => some gs
               | it, g :: gs => (build fuel it).map fun m => M.and fuel g m :: gs
               | _, [] => none) (some gs) = some gs' →
-          Rel env gs' (items.foldl (fun (gs : List Bool) it =>
-            match it, gs with
-            | .or_, gs => true :: gs
-            | .and_, gs => gs
-            | it, g :: gs => (g && refSem env fuel it) :: gs
-            | _, [] => []) bs) := by
+          Rel env gs' (items.foldl (refStep (refSem env fuel)) bs) := by
         intro items
         induction items with
         | nil => intro gs bs hr _ gs' h; simp at h; subst h; simpa using hr
@@ -120,7 +117,7 @@ theorem build_sound : ∀ (fuel : Nat) (p : PItem) (m : M), PGood env fuel p →
           intro gs bs hr hgood gs' h
           have hrest : ∀ it ∈ rest, PGood env fuel it := fun x hx => hgood x (by simp [hx])
           have hit : PGood env fuel it := hgood it (by simp)
-          simp only [List.foldl_cons] at h ⊢
+          simp only [List.foldl_cons, refStep] at h ⊢
           cases it with
           | or_ =>
             exact ihr (.any :: gs) (true :: bs) ⟨⟨by simp [GAll], by simp [sem]⟩, hr⟩ hrest gs' h
